@@ -20,6 +20,8 @@ RawInit == [inp |-> <<>>, gots |-> <<>>, req |-> <<>>, ans |-> <<>>, seen |-> {}
 Init == l = 1 /\ mon = MonInit /\ raw = RawInit
 
 IsRaw(c) == c \in DOMAIN raw.inp
+\* index of the last line feed of b (0 if none)
+LastLF(b) == LET S == {i \in DOMAIN b : b[i] = 10} IN IF S = {} THEN 0 ELSE CHOOSE i \in S : \A j \in S : j <= i
 
 SingleKinds == {"cmd", "get", "set"}
 RawStep(r, m0, m, e) ==
@@ -58,7 +60,9 @@ RawStep(r, m0, m, e) ==
                 id \in {x \in DOMAIN r.req : r.req[x].k \in SingleKinds /\ x \notin r.seen /\ Cst(m, x[1]) = "open"
                                               /\ x[2] <= Len(Got(m, x[1])) /\ Got(m, x[1])[x[2]].t # "perr"} } \cup
             { <<"C12", c, 0, "invalid-input-neither-answered-with-error-nor-closed">> :
-                c \in {x \in DOMAIN r.inp : /\ Classify(r.inp[x]) = "invalid"
+                \* (judged on what the client sent up to its last line feed: a reader that works line by line may wait for the
+                \* end of a line before it calls it invalid, as a Redis server does)
+                c \in {x \in DOMAIN r.inp : /\ Classify(SubSeq(r.inp[x], 1, LastLF(r.inp[x]))) = "invalid"
                                             /\ Cst(m, x) = "open"
                                             /\ ~\E k \in DOMAIN At(r.gots, x, <<>>) : IsErr(r.gots[x][k])} }]
     [] OTHER -> r
